@@ -149,6 +149,7 @@ REQUIRE = {
     "fn_calls_with_noncontiguous_array_arguments": 100,
     "fn_calls_with_temporary_view_arguments": 60,
     "fn_calls_on_grids_above_65536_cells": 8,
+    "dt_queries_inviscid_at_rest_on_coarse_grid": 4,
     "other_precision_predecessors": 8,
 }
 SIM_KINDS = ("passive2d", "passive3d", "ns2d", "ns3d")
@@ -222,6 +223,11 @@ def _draw_params(rng, d, real_t):
     cfl = 1.0 if rng.random() < 0.15 else _loguniform(rng, 1e-3, 1.0)
     if rng.random() < 0.06:
         nu = 0.0  # inviscid ("any viscosity"): no diffusion limit, the step must still be finite, positive and within the CFL limit
+        if rng.random() < 0.5:
+            # ... on a coarse grid in large units (dx = 4..256, e.g. metres): with the fluid at rest as well, neither limit binds and the
+            # guards of both quotients alone decide whether the returned step is finite
+            dx = _loguniform(rng, 4.0, 256.0)
+            cfl = 1.0 if rng.random() < 0.5 else _loguniform(rng, 0.05, 1.0)
     return nu, dx, cfl
 
 
@@ -251,6 +257,8 @@ def _check_dt(rec, get_dt, vel, d, dx, nu, cfl, real_t, rng, cls, meta):
     dec = int(np.floor(np.log10(nu / dx**2))) if nu > 0 else "inviscid"
     if nu == 0:
         rec.count("dt_queries_with_zero_viscosity")
+        if umax == 0 and cfl * dx > 4:
+            rec.count("dt_queries_inviscid_at_rest_on_coarse_grid")
     ps = [1.0, 0.5, float(rng.uniform(1e-3, 1.0)), 0.3]
     dts = {}
     for p in ps:
@@ -530,6 +538,10 @@ def _run_fn(sh, rec):
         nu, dx_t, cfl = _draw_params(rng, d, real_t)
         dx = real_t(dx_t)
         vk = VEL_KINDS[int(rng.integers(len(VEL_KINDS)))]
+        if it % 100 == 11:
+            # forced conjunction: inviscid, fluid at rest, coarse grid in large units (see _draw_params)
+            nu, dx_t, cfl, vk = 0.0, _loguniform(rng, 8.0, 256.0), 1.0, "zero"
+            dx = real_t(dx_t)
         if it % 40 == 7:
             # production-size grid (> 65536 cells) whose slowest axis is an odd / prime-ish length: reductions done slab by slab or
             # block by block only have a remainder to drop on grids like this; the fastest cells are the last (or first) in memory
